@@ -185,6 +185,72 @@ func main() {
 		}
 	}
 
+	// ---- part 1b: extracting over existing files (second extraction with shorter content, duplicate entries)
+	for variant := 0; variant < 3; variant++ {
+		caseNo++
+		base := filepath.Join(scratch, fmt.Sprintf("re%d", caseNo))
+		src, dst := filepath.Join(base, "src"), filepath.Join(base, "dst")
+		must(os.MkdirAll(filepath.Join(src, "d"), 0o755))
+		write := func(long bool) map[string]string {
+			exp := map[string]string{}
+			for _, f := range []string{"cfg.txt", "d/note.txt", "empty"} {
+				c := "short:" + f
+				if long {
+					c = strings.Repeat("a much longer first version of "+f+"\n", 3)
+				}
+				if f == "empty" && !long {
+					c = ""
+				}
+				must(os.WriteFile(filepath.Join(src, filepath.FromSlash(f)), []byte(c), 0o644))
+				exp[filepath.FromSlash(f)] = fmt.Sprintf("%x/%d", sha256.Sum256([]byte(c)), len(c))
+			}
+			return exp
+		}
+		evals++
+		nontriv++
+		var exp map[string]string
+		switch variant {
+		case 0, 1: // long version first, then the short one over it (1: pre-existing unrelated long file at a target path)
+			write(true)
+			must(files.ZipFolder(src, filepath.Join(base, "a.zip"), nil, true))
+			exp = write(false)
+			must(files.ZipFolder(src, filepath.Join(base, "b.zip"), nil, true))
+			if variant == 1 {
+				must(os.MkdirAll(dst, 0o755))
+				must(os.WriteFile(filepath.Join(dst, "cfg.txt"), []byte(strings.Repeat("pre-existing content ", 20)), 0o644))
+			} else if err := files.UnzipToFolder(filepath.Join(base, "a.zip"), dst); err != nil {
+				fail("reextract unzip-error", err.Error(), nil)
+			}
+			if err := files.UnzipToFolder(filepath.Join(base, "b.zip"), dst); err != nil {
+				fail("reextract unzip-error", err.Error(), nil)
+			}
+		case 2: // one archive with the same entry twice, the later body shorter: the last one wins, completely
+			zf := filepath.Join(base, "dup.zip")
+			f, err := os.Create(zf)
+			must(err)
+			zw := zip.NewWriter(f)
+			w, _ := zw.Create("x/note.txt")
+			fmt.Fprint(w, "first and much longer body")
+			w, _ = zw.Create("x/note.txt")
+			fmt.Fprint(w, "second")
+			must(zw.Close())
+			must(f.Close())
+			exp = map[string]string{filepath.FromSlash("x/note.txt"): fmt.Sprintf("%x/%d", sha256.Sum256([]byte("second")), 6)}
+			if err := files.UnzipToFolder(zf, dst); err != nil {
+				fail("reextract unzip-error", err.Error(), nil)
+			}
+		}
+		got := files_(snapshot(dst))
+		for k, v := range exp {
+			if got[k] != v {
+				b, _ := os.ReadFile(filepath.Join(dst, k))
+				fail(fmt.Sprintf("reextract content variant=%d", variant), fmt.Sprintf("variant %d (0: second extraction over the first, 1: over a pre-existing file, 2: duplicate entry): %s holds %d bytes %q instead of the archive's content", variant, k, len(b), string(b)), map[string]any{"variant": variant})
+			}
+		}
+		os.RemoveAll(base)
+	}
+	samples.Add("re-extraction: a second archive with shorter files over the first extraction, over a pre-existing file, and an archive with a duplicate entry (last one wins, completely)")
+
 	// ---- part 2: confinement for arbitrary archives
 	names := []string{"a", "d/a", "../a", "../../a", "d/../../a", "/abs", "..", "./a", "d/", "d", "a/b", `..\a`, "d/../e/../../x",
 		// siblings whose names start with the destination's own name ("dest"): a string-prefix test is not a path-prefix test
